@@ -194,6 +194,8 @@ func evalC12(c *Ctx, cs C12Case, alsoCLI bool) string {
 			r := gen.Generate(c.CLI(), v, in, filepath.Join(dir, "g.out"), 60*time.Second)
 			if r.TimedOut {
 				c.Inconclusive("CLI timed out")
+			} else if r.EnvironmentFailure() {
+				c.Infra("the CLI failed for a reason of the machine, not of its input: exit %d, %s", r.Exit, clip(lastLine(r.Stderr), 200))
 			} else if r.Failed() == want {
 				return fmt.Sprintf("CLI exit status %d on a grammar that is usable=%v (%s)\nstderr: %s\n%s", r.Exit, want, why, clip(r.Stderr, 300), cs.Text)
 			} else {
